@@ -1180,7 +1180,7 @@ class LangServer:
                 return self._create_ref_link(impl_obj)
         elif var_obj.parent.get_type() == INTERFACE_TYPE_ID:
             # Find the first implementation of the interface
-            if var_obj.link_obj is not None:
+            if getattr(var_obj, "link_obj", None) is not None:
                 return self._create_ref_link(var_obj.link_obj)
         return None
 
